@@ -7,6 +7,13 @@
 //     R<p>:<v>  resolve     J<p>:<e>  reject with exception code e
 //     A<p>,<p>[,<p>]    whenAll of 2 or 3 Promise<int>     K<p>,<p>[,<p>]   whenAny
 //     V<p>,...          whenAll(first, last) over 2-4 Promise<int>   W<p>,...   whenAny(first, last)
+//     M                 new Promise<void> root     Q<p>  resolve it
+//     T<src>:<p|q|r>:<t|s>  then() with a callback returning a Promise<int>: p = pending (settled later by
+//                       IR<k>:<v> / IJ<k>:<e>, k = the continuation's index), q = already fulfilled with v + 1
+//                       (1 on a void source), r = already rejected with code 77. Takes two promise ids (derived,
+//                       returned) and two continuation ids (the library's chainer, the user's callbacks).
+//                       v on a void source returns 1.
+//     X<p>              the program drops its handles to promise p (promise, resolver, rejection)
 // Log: <k>R<v>[.<v>..] / <k>J<e> per callback run (k = continuation index in creation order), E when the
 // settling party got an exception.
 #include <pistache/async.h>
@@ -61,6 +68,21 @@ struct Interp
     std::map<int, Async::Promise<Async::Any>> anys;
     std::map<int, Async::Resolver> resolvers;
     std::map<int, Async::Rejection> rejections;
+    std::map<int, Async::Resolver> inner_res;   // by continuation index
+    std::map<int, Async::Rejection> inner_rej;
+
+    // what a promise-returning callback returns
+    Async::Promise<int> returned(int k, char mode, int value)
+    {
+        if (mode == 'q')
+            return Async::Promise<int>::resolved(value);
+        if (mode == 'r') // (both forms: an exception object, an exception already captured)
+            return k % 2 ? Async::Promise<int>::rejected(PvExc { 77 }) : Async::Promise<int>::rejected(std::make_exception_ptr(PvExc { 77 }));
+        return Async::Promise<int>([&](Async::Resolver& res, Async::Rejection& rej) {
+            inner_res.emplace(k, res.clone());
+            inner_rej.emplace(k, rej.clone());
+        });
+    }
 
     template <typename P>
     void attach_leaf(P& p, int k, bool rethrow, std::function<std::string(const typename std::decay<decltype(p)>::type&)> = nullptr);
@@ -103,10 +125,24 @@ struct Interp
             }
             int src       = atoi(parts[0].c_str());
             bool val      = parts[1] == "v";
+            char mode     = parts[1][0];
+            bool prom     = mode == 'p' || mode == 'q' || mode == 'r';
             bool rethrow  = parts[2] == "t";
+            if (prom)
+                ++nconts; // the chainer the library attaches to the returned promise
             int k         = nconts++;
             int id        = static_cast<int>(kinds.size());
             auto h        = handler(k, rethrow);
+            if (prom && (kinds[src] == Int || kinds[src] == Void))
+            {
+                kinds.push_back(Int);
+                kinds.push_back(Int); // the returned promise: never addressed by id
+                if (kinds[src] == Int)
+                    ints.emplace(id, ints.at(src).then([this, k, mode](int v) { log << " " << k << "R" << v; return returned(k, mode, v + 1); }, h));
+                else
+                    ints.emplace(id, voids.at(src).then([this, k, mode]() { log << " " << k << "R"; return returned(k, mode, 1); }, h));
+                return;
+            }
             switch (kinds[src])
             {
             case Int:
@@ -122,8 +158,16 @@ struct Interp
                 }
                 break;
             case Void:
-                kinds.push_back(Void);
-                voids.emplace(id, voids.at(src).then([this, k]() { log << " " << k << "R"; }, h));
+                if (val)
+                {
+                    kinds.push_back(Int);
+                    ints.emplace(id, voids.at(src).then([this, k]() { log << " " << k << "R"; return 1; }, h));
+                }
+                else
+                {
+                    kinds.push_back(Void);
+                    voids.emplace(id, voids.at(src).then([this, k]() { log << " " << k << "R"; }, h));
+                }
                 break;
             case Tuple2:
                 kinds.push_back(Void);
@@ -146,6 +190,58 @@ struct Interp
                 voids.emplace(id, anys.at(src).then([this, k](const Async::Any& a) { log << " " << k << "R" << a.cast<int>(); }, h));
                 break;
             }
+        }
+        else if (c == 'M')
+        {
+            int id = static_cast<int>(kinds.size());
+            kinds.push_back(Void);
+            Async::Promise<void> p([&](Async::Resolver& res, Async::Rejection& rej) {
+                resolvers.emplace(id, res.clone());
+                rejections.emplace(id, rej.clone());
+            });
+            voids.emplace(id, std::move(p));
+        }
+        else if (c == 'Q')
+        {
+            try
+            {
+                resolvers.at(atoi(o.c_str() + 1))();
+            }
+            catch (const Async::Error&)
+            {
+                log << " E";
+            }
+        }
+        else if (c == 'I')
+        {
+            auto colon = o.find(':');
+            int k      = atoi(o.substr(2, colon - 2).c_str());
+            int v      = atoi(o.substr(colon + 1).c_str());
+            if (!inner_res.count(k))
+                return; // the callback has not run: there is no promise to settle
+            try
+            {
+                if (o[1] == 'R')
+                    inner_res.at(k)(v);
+                else
+                    inner_rej.at(k)(PvExc { v });
+            }
+            catch (const Async::Error&)
+            {
+                log << " E";
+            }
+        }
+        else if (c == 'X')
+        {
+            int p = atoi(o.c_str() + 1);
+            ints.erase(p);
+            voids.erase(p);
+            vecs.erase(p);
+            t2.erase(p);
+            t3.erase(p);
+            anys.erase(p);
+            resolvers.erase(p);
+            rejections.erase(p);
         }
         else if (c == 'R' || c == 'J')
         {
